@@ -477,8 +477,8 @@ def r05_10(ctx):
         ctx.met('R05.10', f.qual, 'no spsolve with a matrix right-hand side', f.node)
         return
     text = src(f.node).replace(' ', '')
-    reshaped = any(isinstance(c, ast.Call) and ((isinstance(c.func, ast.Attribute) and c.func.attr == 'reshape') or call_name(c) in ('np.reshape', 'np.atleast_2d'))
-                   for c in ast.walk(f.node)) or '.shape=' in text
+    reshaped = any(isinstance(c, ast.Call) and ((isinstance(c.func, ast.Attribute) and c.func.attr == 'reshape') or call_name(c) in ('np.reshape', 'np.atleast_2d', 'np.expand_dims'))
+                   for c in ast.walk(f.node)) or any(k in text for k in ('.shape=', 'ndim', 'newaxis', ',None]', 'shape=('))
     ctx.decide('R05.10', f.qual, src(sp[0]), True if reshaped else False, sp[0],
                'the solution is given the shape of the right-hand side' if reshaped else
                'spsolve squeezes a one-column right-hand side to 1-D and csr_matrix turns that into a row: for a source basis with a single '
